@@ -217,7 +217,9 @@ func c04CheckAccepted(s string) {
 	verifrt.Cover("accepted")
 }
 
-// VerifC04AcceptsV4: X ++ ".in-addr.arpa" with X an arbitrary ASCII string.
+// VerifC04AcceptsV4: X ++ j ++ "in-addr.arpa" with X an arbitrary ASCII string
+// and j an arbitrary ASCII byte (the canonical '.' or anything else); for the
+// empty X also the bare root.
 func VerifC04AcceptsV4() {
 	max := 7
 	if verifrt.Thorough() {
@@ -226,7 +228,12 @@ func VerifC04AcceptsV4() {
 	x := verifrt.String(verifrt.Len(max))
 	verifAssumeASCII(x)
 	verifAssumeNoACE(x)
-	b := append([]byte(x), '.')
+	b := []byte(x)
+	if len(x) > 0 || verifrt.Bool2() {
+		j := verifrt.Byte()
+		verifrt.Assume(j < 0x80)
+		b = append(b, j)
+	}
 	b = c04Tail(b, "in-addr.arpa")
 	c04CheckAccepted(string(b))
 }
@@ -303,5 +310,80 @@ func VerifC04AcceptsV4V6Text() {
 	}
 	b = append(b, '.')
 	b = c04Tail(b, "in-addr.arpa")
+	c04CheckAccepted(string(b))
+}
+
+// VerifC04UnicodeRoot: a complete reversed name in which one byte of the root
+// ("in-addr.arpa" / "ip6.arpa") is replaced by an arbitrary two-byte UTF-8
+// rune (thorough: three-byte runes too).  Such a name is the canonical name of
+// no address, whatever Unicode case mapping says about the rune, so it must be
+// rejected; the real idna, strings.ToLower and unicode tables are executed.
+func VerifC04UnicodeRoot() {
+	v6 := verifrt.Bool2()
+	root := "in-addr.arpa"
+	var b []byte
+	if v6 {
+		root = "ip6.arpa"
+		for i := 0; i < 32; i++ {
+			b = append(b, "0123456789abcdef"[i%16], '.')
+		}
+	} else {
+		d := verifrt.Byte()
+		verifrt.Assume(d >= '0' && d <= '9')
+		b = append(b, '4', '.', '3', '.', '2', '.', d, '.')
+	}
+	pos := verifrt.Choice(len(root))
+	three := false
+	if verifrt.Thorough() {
+		three = verifrt.Bool2()
+	}
+	for i := 0; i < len(root); i++ {
+		if i != pos {
+			b = append(b, root[i])
+
+			continue
+		}
+		if three {
+			c0, c1, c2 := verifrt.Byte(), verifrt.Byte(), verifrt.Byte()
+			verifrt.Assume(c0 >= 0xe1 && c0 <= 0xec && c1 >= 0x80 && c1 <= 0xbf && c2 >= 0x80 && c2 <= 0xbf)
+			b = append(b, c0, c1, c2)
+		} else {
+			c0, c1 := verifrt.Byte(), verifrt.Byte()
+			verifrt.Assume(c0 >= 0xc2 && c0 <= 0xdf && c1 >= 0x80 && c1 <= 0xbf)
+			b = append(b, c0, c1)
+		}
+	}
+	s := string(b)
+	addr, err := IPFromReversedAddr(s)
+	verifrt.ObserveBool("accepted", err == nil)
+	_ = addr
+	verifrt.Assert(err != nil, "IPFromReversedAddr accepted a name with a non-ASCII rune in the ARPA root")
+	verifrt.Cover("rejected")
+}
+
+// VerifC04V6Separators: the 72-byte shape with fixed hex nibbles except around
+// one position: one of the 32 separators is an arbitrary ASCII byte and its two
+// neighbour nibbles are arbitrary ASCII bytes (so a multi-byte label at every
+// nibble slot, of both parities, is inside).
+func VerifC04V6Separators() {
+	free := verifrt.Choice(32)
+	var b []byte
+	for i := 0; i < 32; i++ {
+		if i == free || i == free+1 {
+			c := verifrt.Byte()
+			verifrt.Assume(c < 0x80 && c != 'x' && c != '.')
+			b = append(b, c)
+		} else {
+			b = append(b, "0123456789abcdefABCDEF"[(i*7)%22])
+		}
+		if i == free {
+			d := verifrt.Byte()
+			verifrt.Assume(d < 0x80 && d != 'x')
+			b = append(b, d)
+		} else {
+			b = append(b, '.')
+		}
+	}
+	b = c04Tail(b, "ip6.arpa")
 	c04CheckAccepted(string(b))
 }
